@@ -287,6 +287,35 @@ func (g *gen) c11Conserve() Op {
 	return Op{K: "conserve", N: g.r.Intn(2), S: ss}
 }
 
+// c11ConserveAny: arbitrary payload bytes (markers, partial markers,
+// invalid UTF-8, newlines, every byte value) in random safe/unsafe write
+// sequences.
+func (g *gen) c11ConserveAny() Op {
+	n := 2 + g.r.Intn(8)
+	var ss []Step
+	for i := 0; i < n; i++ {
+		p := g.payload()
+		if len(p) > 200 {
+			p = p[:200]
+		}
+		switch g.r.Intn(9) {
+		case 0, 1:
+			ss = append(ss, Step{A: "ss", S: Str(p)})
+		case 2, 3:
+			ss = append(ss, Step{A: "us", S: Str(p)})
+		case 4:
+			ss = append(ss, Step{A: "sbs", S: Str(p)})
+		case 5:
+			ss = append(ss, Step{A: "ubs", S: Str(p)})
+		case 6:
+			ss = append(ss, Step{A: []string{"sr", "ur"}[g.r.Intn(2)], I: int64([]int{65, 0x203a, 0x2039, 0xe9, -1, 0xd800, 0x110000, 10, 0xfffd}[g.r.Intn(9)])})
+		default:
+			ss = append(ss, Step{A: []string{"sy", "uy"}[g.r.Intn(2)], I: int64(g.r.Intn(256))})
+		}
+	}
+	return Op{K: "conserveany", N: g.r.Intn(2), S: ss}
+}
+
 func (g *gen) c11RuneSweep() Op {
 	starts := []int{0, 0x80, 0x700, 0x2000, 0xd700, 0xd800, 0xdc00, 0xdf80, 0xff00, 0x10ff80, 0x110000 - 128, -256, 0x7fffff00}
 	st := starts[g.r.Intn(len(starts))]
@@ -393,9 +422,16 @@ func (g *gen) c11Helpers() Op {
 
 // domain-edge ops for the first sentence of C11 (sampled, see DESIGN §5.1)
 func (g *gen) c11Edge() Op {
-	switch g.r.Intn(8) {
+	switch g.r.Intn(10) {
 	case 7:
 		return g.c11Helpers()
+	case 8:
+		return g.c11ConserveAny()
+	case 9:
+		if g.chance(0.5) {
+			return Op{K: "exotic", N: g.r.Intn(1000)}
+		}
+		return g.c11ConserveAny()
 	case 0, 1:
 		return g.c11Conserve()
 	case 2:
